@@ -11,6 +11,12 @@ type G struct {
 	T        *sim.Tape
 	Thorough bool
 	big      int // boundary-size fields still allowed in this packet
+	// values drawn earlier for the same packet: now and then a new value
+	// repeats an old one (equal lengths, equal numbers, equal strings in
+	// different fields - relations a uniform draw almost never produces)
+	lens []int
+	nums []uint32
+	strs [][]byte
 }
 
 // NewG makes a generator with a budget of boundary-size values (16383..65535 bytes).
@@ -20,6 +26,20 @@ var boundary = []int{127, 128, 129, 255, 256, 16383, 16384, 65534, 65535}
 
 // Len draws a string/binary length: mostly short, sometimes on a boundary.
 func (g *G) Len() int {
+	n := g.len0()
+	if len(g.lens) > 0 && g.T.Bool(1, 10) {
+		n = g.lens[g.T.Int(len(g.lens))]
+		if n > 300 {
+			n = n % 300
+		}
+	}
+	if len(g.lens) < 16 {
+		g.lens = append(g.lens, n)
+	}
+	return n
+}
+
+func (g *G) len0() int {
 	t := g.T
 	switch t.Pick(10, 6, 3, 2) {
 	case 0:
@@ -53,10 +73,42 @@ func (g *G) Len1() int {
 const alphabet = "abcdefghijklmnopqrstuvwxyzABCDEFGHIJKLMNOPQRSTUVWXYZ0123456789/-_."
 
 // Str returns a well-formed UTF-8 string of exactly n bytes (no U+0000).
+var specials = []string{"#", "+", "a/+/b", "a/#", "$SYS/broker/load", "$share/group/topic", "/", "//", " ", "a b", "MQTT", "MQIsdp", "\u00e9\u20ac", "\U0001F600", "0", "null", "%s%d", "../x"}
+
 func (g *G) Str(n int) []byte {
 	if n == 0 {
 		return []byte{}
 	}
+	if n <= 24 {
+		switch g.T.Pick(20, 1, 1) {
+		case 1: // a string with characters that matter to MQTT or to careless code, of exactly n bytes where possible
+			sp := []byte(specials[g.T.Int(len(specials))])
+			if len(sp) == n {
+				return sp
+			}
+			if len(sp) < n {
+				out := append([]byte{}, sp...)
+				for len(out) < n {
+					out = append(out, 'x')
+				}
+				return out
+			}
+		case 2: // the same string as an earlier field of this packet
+			for _, old := range g.strs {
+				if len(old) == n {
+					return append([]byte{}, old...)
+				}
+			}
+		}
+	}
+	b := g.str0(n)
+	if n <= 24 && len(g.strs) < 12 {
+		g.strs = append(g.strs, b)
+	}
+	return b
+}
+
+func (g *G) str0(n int) []byte {
 	b := g.T.Bytes(n)
 	for i := range b {
 		b[i] = alphabet[int(b[i])%len(alphabet)]
@@ -78,26 +130,56 @@ func (g *G) Bin(n int) []byte {
 	return g.T.Bytes(n)
 }
 
+var magic16 = []uint16{1, 2, 10, 13, 100, 127, 128, 255, 256, 257, 1000, 1024, 1883, 4096, 8192, 8883, 16383, 16384, 32767, 32768, 0x0A0D, 0x5555, 0xAAAA, 0x00FF, 0xFF00, 65280, 65534, 65535}
+
 func (g *G) U16() uint16 {
 	t := g.T
-	switch t.Pick(3, 2, 3) {
+	var v uint16
+	switch t.Pick(3, 3, 3, 1) {
 	case 0:
-		return uint16(1 + t.Int(10))
+		v = uint16(1 + t.Int(10))
 	case 1:
-		return []uint16{1, 255, 256, 32767, 32768, 65534, 65535}[t.Int(7)]
+		v = magic16[t.Int(len(magic16))]
+	case 3:
+		if len(g.nums) > 0 {
+			if x := g.nums[t.Int(len(g.nums))] & 0xffff; x != 0 {
+				return uint16(x)
+			}
+		}
+		v = uint16(1 + t.Int(65535))
+	default:
+		v = uint16(1 + t.Int(65535))
 	}
-	return uint16(1 + t.Int(65535))
+	if len(g.nums) < 16 {
+		g.nums = append(g.nums, uint32(v))
+	}
+	return v
 }
+
+var magic32 = []uint32{1, 60, 255, 256, 1000, 3600, 65535, 65536, 86400, 1 << 24, 1<<24 - 1, 268435455, 268435456, 1<<31 - 1, 1 << 31, 0x55555555, 0xAAAAAAAA, 1<<32 - 2, 1<<32 - 1}
 
 func (g *G) U32() uint32 {
 	t := g.T
-	switch t.Pick(3, 2, 3) {
+	var v uint32
+	switch t.Pick(3, 3, 3, 1) {
 	case 0:
-		return uint32(1 + t.Int(10))
+		v = uint32(1 + t.Int(10))
 	case 1:
-		return []uint32{1, 255, 65535, 65536, 1<<31 - 1, 1 << 31, 1<<32 - 2, 1<<32 - 1}[t.Int(8)]
+		v = magic32[t.Int(len(magic32))]
+	case 3:
+		if len(g.nums) > 0 {
+			if x := g.nums[t.Int(len(g.nums))]; x != 0 {
+				return x
+			}
+		}
+		v = uint32(1 + t.Uint(1<<32-1))
+	default:
+		v = uint32(1 + t.Uint(1<<32-1))
 	}
-	return uint32(1 + t.Uint(1<<32-1))
+	if len(g.nums) < 16 {
+		g.nums = append(g.nums, v)
+	}
+	return v
 }
 
 // Varint draws a value in 1..268435455, biased to the width boundaries.
